@@ -762,6 +762,10 @@ class FuncTr:
         if isinstance(e, ast.Subscript):
             if isinstance(e.slice, ast.Slice):
                 raise Unsupported("slice (%s)" % loc(e))
+            if isinstance(e.slice, ast.Constant) and isinstance(e.slice.value, str):
+                # a literal key: compared like a name (py_getitem_lit = py_getitem on a PStr, Proofs/PyDyn.v)
+                key = cstr(e.slice.value)
+                return u.seq(self.expr(e.value, env), lambda t: mon("(py_getitem_lit %s %s)" % (t, key)))
             a, b = self.expr(e.value, env), self.expr(e.slice, env)
             return u.seq_many([a, b], lambda ts: mon("(py_getitem %s %s)" % (ts[0], ts[1])))
         if isinstance(e, ast.Compare):
